@@ -61,5 +61,9 @@ check("C14", "exploration",
       "Framing oracle at every wait after a completion key: buffer == L0[:word start] + offered value + L0[cursor:] (or unchanged), over buffers with multi-byte text, quotes and escaped blanks, cursors at the end / inside / before words, 1-8 candidates (plain, described, tagged, NoSpace, case variants), ignore-case on/off and Tab / Shift-Tab / arrow sequences; C-c in an active menu must restore (L0, cursor) and not end the call.",
       TCB, "runtime monitoring: framing equality against the pre-completion snapshot and the completer's own candidate list", "DESIGN.md 5 C14")
 
+check("C15", "exploration",
+      "Permutation-window and periodicity oracle on the sequence of words inserted by 2N+3 presses of menu-complete / menu-complete-backward, for N = 2..60 candidates in six layouts (plain, described, aliased, multi-tag, long, double-width) on terminals 20-160 x 6-40 incl. menus taller than the screen.",
+      TCB, "runtime monitoring: trace checker (period-N permutation windows) over the inserted-word sequence", "DESIGN.md 5 C15")
+
 for _p in ["C03","C04","C05","C06","C07","C08","C09","C10","C11","C12","C13","C14","C15","C16","C17","C18","C19","C20"]:
     NOT_YET[_p] = "check under construction in this session (runtime monitor designed in DESIGN.md section 5, not yet registered)"
